@@ -38,7 +38,17 @@ func (cp *CachedPlanner) WithPlannerExecutor(e Planner) *CachedPlanner {
 }
 
 func (cp *CachedPlanner) hash(ctx *PlanningContext) hashKey {
-	s := format.NewBufferedFormatter().FormatSelectionSet(ctx.Operation.SelectionSet)
+	// the plan depends on the whole operation: its type, its name and its variable definitions
+	// end up in the generated sub-requests, not only its selection set
+	s := string(ctx.Operation.Operation) + " " + ctx.Operation.Name + "("
+	for _, vd := range ctx.Operation.VariableDefinitions {
+		s += "$" + vd.Variable + ": " + vd.Type.String()
+		if vd.DefaultValue != nil {
+			s += " = " + vd.DefaultValue.String()
+		}
+		s += ", "
+	}
+	s += ") " + format.NewBufferedFormatter().FormatSelectionSet(ctx.Operation.SelectionSet)
 	sha1 := sha1.Sum([]byte(s))
 	return sha1
 }
